@@ -2,6 +2,8 @@ import Spine.SenderThm
 import Spine.Counter
 import Spine.SenderLru
 import Spine.SenderSpec
+import Spine.SenderEvThm
+import Spine.SenderLruExact
 /-!
 # C13 — outbound message identity and request de-duplication
 
@@ -118,6 +120,96 @@ theorem c13_notify_retrievable_at_once (s : Snd.St) :
 
 /-- non-vacuity: after 100 notifications and a promoting lookup the next notification is still retrievable at once -/
 example : (Snd.get (Snd.notify (((List.replicate 100 Snd.Op.notify) ++ [Snd.Op.get 1]).foldl Snd.step {})).1 101).2 = true := by
+  decide +kernel
+
+/-! ## Request de-duplication against the reader goroutine (event-sourced model `Spine.SndEv`)
+
+`Request` is one critical section only with respect to other callers of `Request`; the response path takes the cache
+lock, not `muxRequestSend`, so a response can be processed between "the request is on the connection" and "the
+request is remembered" (regenerated facts `responsePathSkipsRequestMutex`, `writeOutsideCacheLock`,
+`requestRemembersAfterWrite` / `…BeforeWrite` in `Spine.Props.C13Gen`). `SndEv` splits `Request` there; all
+interleavings of any number of callers of `Request` with the reader goroutine = all event lists. The family flag is
+`insertFirst` (`false` = code as written, `true` = repaired: remember before the write). -/
+
+/-- "The memory of unanswered requests stays bounded" and holds one entry per request — under EVERY interleaving of
+    concurrent `Request` callers with responses, in both members of the family. -/
+theorem c13_cache_bounded_all_interleavings (insertFirst : Bool) (evs : List SndEv.Ev) :
+    Snd.Inv (SndEv.run insertFirst {} evs).base :=
+  (SndEv.run_inv insertFirst evs {} (SndEv.init_inv insertFirst)).base
+
+/-- non-vacuity: a response overtakes the insertion, a second caller waits for the mutex, 25 distinct requests:
+    the memory holds 21 entries, the hashes are distinct -/
+example : ((SndEv.run false {} ([.reqBegin 1 7, .reqBegin 2 7, .plain (.response 1), .reqEnd 1, .reqBegin 2 7] ++
+    SndEv.expand ((List.range 25).map (fun i => Snd.Op.request (100 + i))))).base.req.length = 21) := by decide +kernel
+
+/-- "A request is withheld as a duplicate only while an identical request is unanswered, in which case the earlier
+    counter is returned; a response referencing that counter re-enables sending" — REPAIRED member, under EVERY
+    interleaving of `Request` callers and the reader goroutine: the observations (requests written / withheld with
+    their counters, responses, in event order) pass the SPEC monitor `Snd.Spec.run`, which knows written and answered
+    requests only. -/
+theorem c13_dedup_sound_all_interleavings (evs : List SndEv.Ev) :
+    (Snd.Spec.run [] (SndEv.observations true {} evs)).isSome :=
+  SndEv.run_coupled true evs {} [] (SndEv.init_coupled true) (by intro h; cases h)
+
+/-- REFUTED on the code as written (known finding `answer-overtakes-insert`): the response to request 1 is processed
+    after the datagram is on the connection and before `Request` has remembered it; the insertion then records an
+    answered request as unanswered, and the identical request 2 is withheld with counter 1 — the monitor rejects. The
+    same schedule passes in the repaired member. -/
+theorem c13_answer_overtakes_insert_refuted :
+    Snd.Spec.run [] (SndEv.observations false {}
+      [.reqBegin 1 7, .plain (.response 1), .reqEnd 1, .reqBegin 2 7]) = none ∧
+    (SndEv.run false {} [.reqBegin 1 7, .plain (.response 1), .reqEnd 1]).base.req = [(1, 7)] ∧
+    (Snd.Spec.run [] (SndEv.observations true {}
+      [.reqBegin 1 7, .plain (.response 1), .reqEnd 1, .reqBegin 2 7])).isSome ∧
+    (SndEv.run true {} [.reqBegin 1 7, .plain (.response 1), .reqEnd 1]).base.req = [] := by decide
+
+/-- PARTIAL, code as written (the region where the de-duplication clauses hold): every interleaving in which no
+    response references the counter of the request that is in flight at that moment (between its write and its
+    insertion) — responses to any other counter may arrive there. -/
+theorem c13_dedup_sound_partial (evs : List SndEv.Ev) (hcalm : SndEv.calm false {} evs = true) :
+    (Snd.Spec.run [] (SndEv.observations false {} evs)).isSome :=
+  SndEv.run_coupled false evs {} [] (SndEv.init_coupled false) (fun _ => hcalm)
+
+/-- non-vacuity: a calm history of the member as written with a response to ANOTHER counter inside the window, a
+    waiting second caller and a legitimate withholding; and the witness above is not calm -/
+example : SndEv.calm false {} [.reqBegin 1 7, .reqEnd 1, .reqBegin 2 8, .reqBegin 3 7, .plain (.response 1), .reqEnd 2,
+      .reqBegin 3 7, .reqEnd 3, .reqBegin 4 8] = true ∧
+    SndEv.observations false {} [.reqBegin 1 7, .reqEnd 1, .reqBegin 2 8, .reqBegin 3 7, .plain (.response 1), .reqEnd 2,
+      .reqBegin 3 7, .reqEnd 3, .reqBegin 4 8] = [.req 7 1 true, .req 8 2 true, .resp 1, .req 7 3 true, .req 8 2 false] ∧
+    SndEv.calm false {} [.reqBegin 1 7, .plain (.response 1), .reqEnd 1, .reqBegin 2 7] = false := by decide
+
+/-- Cross-model agreement: the sequential model `Spine.Snd` (the one the op-by-op correspondence drives) is the
+    non-overlapping fragment of the event-sourced model, in BOTH members — a history in which every `Request` runs to
+    its end before the next operation yields the same state; so the repair does not change sequential behaviour. -/
+theorem c13_event_model_refines_sequential (insertFirst : Bool) (ops : List Snd.Op) :
+    SndEv.run insertFirst {} (SndEv.expand ops) = { base := ops.foldl Snd.step {}, held := none } :=
+  SndEv.seq_refines insertFirst ops {}
+
+/-- non-vacuity: a sequential history with a withheld request and an answered one -/
+example : (SndEv.run false {} (SndEv.expand [.request 7, .request 7, .response 1, .request 7, .notify])).base.req = [(2, 7)] ∧
+    (SndEv.run false {} (SndEv.expand [.request 7, .request 7, .response 1, .request 7, .notify])).base.msgNum = 3 := by decide
+
+/-! ## The last-100 clause: exactly what the LRU retains -/
+
+/-- EXACT characterisation (every history, lookups included): the notify cache holds precisely the 100 most recently
+    TOUCHED distinct counters — a notification touches its counter, a lookup that hits touches the counter looked up.
+    So a notification is retrievable iff fewer than 100 distinct counters were touched after its most recent touch. -/
+theorem c13_lru_exact (ops : List Snd.Op) (c : Nat) :
+    (Snd.get (ops.foldl Snd.step {}) c).2 = true ↔ c ∈ (Snd.dedup (Snd.touches {} ops)).take 100 :=
+  Snd.retrievable_iff ops c
+
+/-- PARTIAL, as wide as the library allows: in EVERY history, with g the number of lookups that hit, each of the
+    most recent (100 − g) notifications is retrievable (g = 0: `c13_last100_partial`). The bound is tight: in the
+    witness of `c13_last100_refuted` g = 1, the 99 most recent notifications are retrievable and the 100th is not. -/
+theorem c13_last100_partial_wide (ops : List Snd.Op) (c : Nat)
+    (hc : c ∈ (Snd.notified {} ops).take (100 - Snd.hits {} ops)) :
+    (Snd.get (ops.foldl Snd.step {}) c).2 = true :=
+  Snd.last100_partial_wide ops c hc
+
+/-- non-vacuity and tightness on the witness history -/
+example : Snd.hits {} Snd.exHist = 1 ∧
+    (Snd.notified {} Snd.exHist).take (100 - Snd.hits {} Snd.exHist) = (List.range 99).map (101 - ·) ∧
+    (Snd.notified {} Snd.exHist)[99]? = some 2 ∧ (Snd.get (Snd.exHist.foldl Snd.step {}) 2).2 = false := by
   decide +kernel
 
 end Spine.Props.C13
